@@ -102,6 +102,8 @@ def generate(tier, seed):
                 plist.append(("interior", common.draw_opt(rng, name, dim, "interior"), None))
             for tag, opt, resc in plist:
                 c = {"name": name, "cfg": cfg, "dim": dim, "opt": opt, "tag": tag, "rescale": resc}
+                if opt and "len_low" not in opt and rng.random() < 0.3:
+                    c["via_setter"] = True
                 # lat-lon(+time) models live in dimension 3 (4) through the chordal distance: that is the dimension the model reports
                 # and in which it must have been accepted; scanned for the default and the drawn parameter sets
                 if cfg in ("plain", "spacetime") or tag in ("default", "interior"):
@@ -120,7 +122,15 @@ def _construct(c, **kw):
         kw = dict(kw, rescale=c["rescale"])
     with warnings.catch_warnings(record=True) as rec:
         warnings.simplefilter("always")
-        m = getattr(gs, name)(**_config_kwargs(c["cfg"], c["dim"]), **opt, **kw)
+        if c.get("via_setter") and opt:
+            # the same parameter set reached on a live, already used object
+            m = getattr(gs, name)(**_config_kwargs(c["cfg"], c["dim"]), **kw)
+            with np.errstate(all="ignore"):
+                m.correlation(np.array([0.0, 0.5 * float(m.len_scale)]))
+            for k_, v_ in opt.items():
+                setattr(m, k_, v_)
+        else:
+            m = getattr(gs, name)(**_config_kwargs(c["cfg"], c["dim"]), **opt, **kw)
     warned = any("not appropriate" in str(w.message) for w in rec)
     unstable = any("unstable" in str(w.message) for w in rec)
     return m, warned, unstable
@@ -175,7 +185,7 @@ def check_spectrum(ctx, c):
 
     desc = {"name": name, "dim": int(model.dim), "len_scale": float(model.len_scale), "opt": {o: float(getattr(model, o)) for o in model.opt_arg},
             "rescale": float(model.rescale)}
-    for r in (0.0, 0.41 * unit, 1.7 * unit):
+    for r in (0.0, 2e-10 * unit, 3e-8 * unit, 1e-5 * unit, 0.41 * unit, 1.7 * unit):
         if not abs(rho(r) - float(ocov.correlation(desc, r))) <= 1e-9 + ocov.evaluation_slack(desc):
             ctx.fail({"what": "correlation!=closed-form", "model": name, "dim": dim}, f"r={r}")
             return
